@@ -115,3 +115,62 @@ Theorem C16_new_events_lie_on_both_segments :
   forall k, mapped NQ (sq_st s') k -> ~ mapped NQ (sq_st s) k ->
   exists x y, e_point (getE (sq_st s') k) = fpt x y /\ on_both p1x p1y o1x o1y p2x p2y o2x o2y x y.
 Proof. exact pi_new_events_on_both. Qed.
+
+(** the step RESOLVES the pair, exact instance.  One common point: afterwards the two
+    sub-segments that still start at [se1] and [se2] (the ones that stay in the status line)
+    have no common point other than end points of both — a meeting point in the interior of
+    either segment has been cut out, at one and the same point, and the new partners lie on the
+    old segments.  Overlap of different operands: they meet in end points only or coincide
+    completely. *)
+From GB Require Import PairResolve.
+Theorem C16_crossing_is_resolved :
+  forall (edges : list edge) (cfg : Outcome.config) (s s' : sq NQ) (se1 se2 other1 other2 : eid) (code : nat) (inter : pt NQ)
+         (p1x p1y o1x o1y p2x p2y o2x o2y : Q),
+  sqinv NQ s -> einv2 edges (sq_st s) -> mapped NQ (sq_st s) se1 -> mapped NQ (sq_st s) se2 ->
+  e_left (getE (sq_st s) se1) = true -> e_left (getE (sq_st s) se2) = true ->
+  e_other (getE (sq_st s) se1) = Some other1 -> e_other (getE (sq_st s) se2) = Some other2 ->
+  e_point (getE (sq_st s) se1) = fpt p1x p1y -> e_point (getE (sq_st s) other1) = fpt o1x o1y ->
+  e_point (getE (sq_st s) se2) = fpt p2x p2y -> e_point (getE (sq_st s) other2) = fpt o2x o2y ->
+  intersection (fpt p1x p1y) (fpt o1x o1y) (fpt p2x p2y) (fpt o2x o2y) = LPoint inter ->
+  possible_intersection cfg s se1 se2 = Outcome.Ok (s', code) ->
+  exists n1 n2 n1x n1y n2x n2y,
+    e_other (getE (sq_st s') se1) = Some n1 /\ e_other (getE (sq_st s') se2) = Some n2 /\
+    e_point (getE (sq_st s') se1) = fpt p1x p1y /\ e_point (getE (sq_st s') se2) = fpt p2x p2y /\
+    e_point (getE (sq_st s') n1) = fpt n1x n1y /\ e_point (getE (sq_st s') n2) = fpt n2x n2y /\
+    SplitCover.on_seg p1x p1y o1x o1y n1x n1y /\ SplitCover.on_seg p2x p2y o2x o2y n2x n2y /\
+    meet_at_ends p1x p1y n1x n1y p2x p2y n2x n2y.
+Proof. exact pi_crossing_resolved. Qed.
+
+Theorem C16_meet_at_ends_unfold :
+  forall p1x p1y n1x n1y p2x p2y n2x n2y : Q,
+  meet_at_ends p1x p1y n1x n1y p2x p2y n2x n2y <->
+  (forall x y, SplitCover.on_seg p1x p1y n1x n1y x y -> SplitCover.on_seg p2x p2y n2x n2y x y ->
+    (qeqp x y p1x p1y \/ qeqp x y n1x n1y) /\ (qeqp x y p2x p2y \/ qeqp x y n2x n2y)).
+Proof. exact (fun _ _ _ _ _ _ _ _ => conj (fun H => H) (fun H => H)). Qed.
+
+Theorem C16_overlap_is_resolved :
+  forall (edges : list edge) (cfg : Outcome.config) (s s' : sq NQ) (se1 se2 other1 other2 : eid) (code : nat) (ia ib : pt NQ)
+         (p1x p1y o1x o1y p2x p2y o2x o2y : Q),
+  sqinv NQ s -> einv2 edges (sq_st s) -> mapped NQ (sq_st s) se1 -> mapped NQ (sq_st s) se2 ->
+  e_left (getE (sq_st s) se1) = true -> e_left (getE (sq_st s) se2) = true ->
+  e_other (getE (sq_st s) se1) = Some other1 -> e_other (getE (sq_st s) se2) = Some other2 ->
+  e_point (getE (sq_st s) se1) = fpt p1x p1y -> e_point (getE (sq_st s) other1) = fpt o1x o1y ->
+  e_point (getE (sq_st s) se2) = fpt p2x p2y -> e_point (getE (sq_st s) other2) = fpt o2x o2y ->
+  e_is_subject (getE (sq_st s) se1) <> e_is_subject (getE (sq_st s) se2) ->
+  intersection (fpt p1x p1y) (fpt o1x o1y) (fpt p2x p2y) (fpt o2x o2y) = LOverlap ia ib ->
+  possible_intersection cfg s se1 se2 = Outcome.Ok (s', code) ->
+  exists n1 n2 n1x n1y n2x n2y,
+    e_other (getE (sq_st s') se1) = Some n1 /\ e_other (getE (sq_st s') se2) = Some n2 /\
+    e_point (getE (sq_st s') se1) = fpt p1x p1y /\ e_point (getE (sq_st s') se2) = fpt p2x p2y /\
+    e_point (getE (sq_st s') n1) = fpt n1x n1y /\ e_point (getE (sq_st s') n2) = fpt n2x n2y /\
+    SplitCover.on_seg p1x p1y o1x o1y n1x n1y /\ SplitCover.on_seg p2x p2y o2x o2y n2x n2y /\
+    (meet_at_ends p1x p1y n1x n1y p2x p2y n2x n2y \/ (qeqp p1x p1y p2x p2y /\ qeqp n1x n1y n2x n2y)).
+Proof. exact pi_overlap_resolved. Qed.
+
+(** the point the kernel reports is THE common point of the two closed segments *)
+Theorem C16_reported_point_is_the_only_common_point :
+  forall a1x a1y a2x a2y b1x b1y b2x b2y ix iy : Q,
+  ~ (a2x == a1x /\ a2y == a1y) ->
+  intersection (fpt a1x a1y) (fpt a2x a2y) (fpt b1x b1y) (fpt b2x b2y) = LPoint (fpt ix iy) ->
+  forall x y, on_both a1x a1y a2x a2y b1x b1y b2x b2y x y -> x == ix /\ y == iy.
+Proof. exact intersection_point_unique. Qed.
